@@ -7,6 +7,20 @@ import json, os, sys
 root = os.path.dirname(os.path.dirname(os.path.abspath(__file__)))
 props = [json.loads(l) for l in open(os.path.join(root, 'properties.jsonl'))]
 claims = json.load(open(os.path.join(root, 'tools', 'claims.json')))
+# per-property claim files written next to the harnesses; a property is claimed
+# only if it is also listed in tools/claimed.txt (checked clean on the unchanged
+# tree by tools/statusall.sh)
+claimed_ids = set(open(os.path.join(root, 'tools', 'claimed.txt')).read().split()) if os.path.exists(os.path.join(root, 'tools', 'claimed.txt')) else set()
+for p in props:
+    cj = os.path.join(root, 'harness', p['id'], 'claim.json')
+    if p['id'] not in claims and os.path.exists(cj):
+        c = json.load(open(cj))
+        if c.get('status') == 'not-applicable':
+            claims[p['id']] = {"claimed": False, "reason": c.get('note', 'not applicable')}
+        elif p['id'] in claimed_ids:
+            claims[p['id']] = {"claimed": True, "text": c['text'], "note": c['note']}
+        else:
+            claims[p['id']] = {"claimed": False, "reason": "check exists (harness/%s) but is not yet registered: not clean or too slow on the unchanged tree in the last full status run" % p['id']}
 checks, na = [], []
 for p in props:
     pid = p['id']
